@@ -416,6 +416,15 @@ def run(ctx):
     ix, ix0 = cm('indexes', [{'name': 'alpha_a_ix', 'fields': ['a']}]), cm('indexes', [])
     family += [[ut, ix], [ix, ut], [ut, ix, ut0], [ix, ut, ix0], [ut, add_int('Alpha', 'q'), ix],
                [ix, ix0, ut], [ut, ut0, ix]]
+    # ... and a rolled-up ChangeField whose initial value is set but falsy (0, '', False): it is still the value the
+    # merged mutation needs
+    addn = lambda field, ftype, *attrs: {'t': 'AddField', 'model': 'Alpha', 'field': field, 'ftype': ftype,
+                                         'initial': None, 'attrs': [['null', 'true']] + [list(a) for a in attrs]}
+    family += [[addn('z', 'IntegerField'), cf('z', None, '0', ('null', 'false'))],
+               [addn('s', 'CharField', ('max_length', '10')), cf('s', None, '""', ('null', 'false'))],
+               [addn('f', 'BooleanField'), cf('f', None, 'false', ('null', 'false'))],
+               [cf('b', None, None, ('max_length', '50')), cf('b', None, '""', ('null', 'false'))],
+               [cf('b', None, None, ('db_index', 'true')), cf('b', None, '""', ('null', 'false'))]]
     seqs = family + seqs
     copies = bool(ctx.variant.get('optimizer_copies'))
     reqs = [{'op': 'optimize', 'existing': existing, 'copies': copies,
